@@ -359,10 +359,12 @@ def run_edit_case_with_values(N, b, M, op, on_copy, out, vals):
 # ------------------------------------------------------------------ part B: method sequences
 
 GOALS = ['A & B --> B & A', 'A | B --> B | A', 'A --> B --> A', '(A --> B) --> (B --> C) --> A --> C', 'A & (B & C) --> (A & B) & C',
-         '~~A --> A', 'A --> A | B', '(A --> B --> C) --> (A & B --> C)']
+         '~~A --> A', 'A --> A | B', '(A --> B --> C) --> (A & B --> C)', 'A & B --> (A --> C) --> C', '(A --> B) --> A --> B']
 STEPS = [
     {'method_name': 'cut', 'goal': 'A'},
     {'method_name': 'cut', 'goal': 'B | A'},
+    {'method_name': 'cut', 'goal': 'A --> C'},
+    {'method_name': 'cut', 'goal': 'A --> B'},
     {'method_name': 'cases', 'case': 'A'},
     {'method_name': 'cases', 'case': 'B'},
     {'method_name': 'introduction'},
@@ -373,6 +375,24 @@ STEPS = [
     {'method_name': 'apply_prev', 'fact': 1},
     {'method_name': 'revert_intro', 'fact': 1},
 ]
+
+
+FO_GOALS = ['(?x. P x) --> (?y. Q y) --> (?x. P x) & (?y. Q y)', '(!x. P x) --> (?y. Q y) --> (?z. P z & Q z)', '(?x. P x & Q x) --> (?x. P x)',
+            '(!x. P x --> Q x) --> (?x. P x) --> (?x. Q x)']
+FO_STEPS = [
+    {'method_name': 'exists_elim', 'fact_abs': 0, 'names': 'a'},
+    {'method_name': 'exists_elim', 'fact_abs': 1, 'names': 'b'},
+    {'method_name': 'exists_elim', 'fact': 1, 'names': 'c'},
+    {'method_name': 'forall_elim', 'fact_abs': 0, 's': 'a'},
+    {'method_name': 'forall_elim', 'fact_abs': 0, 's': 'b'},
+    {'method_name': 'inst_exists_goal', 's': 'a'},
+    {'method_name': 'inst_exists_goal', 's': 'b'},
+    {'method_name': 'apply_backward_step', 'theorem': 'conjI'},
+    {'method_name': 'introduction'},
+    {'method_name': 'cut', 'goal': 'P a'},
+    {'method_name': 'apply_prev', 'fact': 1},
+]
+FO_VARS = {'P': "'a => bool", 'Q': "'a => bool"}
 
 
 def first_gap(state):
@@ -434,13 +454,15 @@ def check_state(state, goal_th, label):
     return None
 
 
-def run_sequence(goal, seq, on_copy_at):
+def run_sequence(goal, seq, on_copy_at, fo=False):
     """-> (kind, why) or None; seq: list of indices into STEPS; on_copy_at: index of the step applied to a copy (or None)."""
     from logic import context
     from server import server, method
     from syntax import parser
     from kernel.term import Implies
-    context.set_context('logic_base', vars={'A': 'bool', 'B': 'bool', 'C': 'bool'})
+    STEPS_ = FO_STEPS if fo else STEPS
+    ctx_vars = FO_VARS if fo else {'A': 'bool', 'B': 'bool', 'C': 'bool'}
+    context.set_context('logic_base', vars=ctx_vars)
     state = server.parse_init_state(parser.parse_term(goal))
     goal_th = state.prf.items[-1].th
     bad = check_state(state, goal_th, 'initial state')
@@ -451,8 +473,10 @@ def run_sequence(goal, seq, on_copy_at):
         gap = first_gap(state)
         if gap is None:
             break
-        step = dict(STEPS[si])
+        step = dict(STEPS_[si])
         step['goal_id'] = str(gap.id)
+        if 'fact_abs' in step:
+            step['fact_ids'] = [str(step.pop('fact_abs'))]
         if 'fact' in step:
             k = step.pop('fact')
             # use the k-th line before the gap at top level as the fact, if any
@@ -463,7 +487,7 @@ def run_sequence(goal, seq, on_copy_at):
         target = state
         snap = None
         if on_copy_at == n:
-            snap = [(str(i.id), i.rule, [str(p) for p in i.prevs], str(i.th)) for i in all_items(state.prf)]
+            snap = [(str(i.id), i.rule, [str(p) for p in i.prevs], str(i.th), str(i.args)) for i in all_items(state.prf)]
             target = copy(state)
         try:
             method.apply_method(target, step)
@@ -472,9 +496,13 @@ def run_sequence(goal, seq, on_copy_at):
             continue
         applied.append(step['method_name'])
         if snap is not None:
-            now = [(str(i.id), i.rule, [str(p) for p in i.prevs], str(i.th)) for i in all_items(state.prf)]
+            now = [(str(i.id), i.rule, [str(p) for p in i.prevs], str(i.th), str(i.args)) for i in all_items(state.prf)]
             if now != snap:
-                return 'method-copy', 'applying %s to a copy changed the original state' % step['method_name']
+                diff = [(a, b_) for a, b_ in zip(snap, now) if a != b_][:1]
+                return 'method-copy', 'applying %s to a copy changed the original state: %s' % (step['method_name'], diff)
+            badc = check_state(state, goal_th, 'original after editing a copy')
+            if badc:
+                return 'method-copy', badc[1]
         bad = check_state(target, goal_th, 'after %s' % '; '.join(applied))
         if bad:
             return bad
@@ -488,11 +516,13 @@ def ItemID_(t):
 
 
 def run_methods(u, out, twin):
-    _, tier, gi = u
+    _, tier, gi = u[:3]
+    fo = len(u) > 3 and u[3] == 'fo'
     L = 2 if tier == 'quick' else 3
-    goal = GOALS[gi]
+    goal = (FO_GOALS if fo else GOALS)[gi]
+    STEPS_ = FO_STEPS if fo else STEPS
     for l in range(1, L + 1):
-        for seq in itertools.product(range(len(STEPS)), repeat=l):
+        for seq in itertools.product(range(len(STEPS_)), repeat=l):
             for cp in (None, l - 1):
                 out['evals'] += 1
                 out['keys'].add('m|%d|%s|%s' % (gi, seq, cp))
@@ -501,15 +531,15 @@ def run_methods(u, out, twin):
                         out['cex'].append({'kind': 'twin', 'goal': gi, 'seq': list(seq)})
                     continue
                 try:
-                    bad = run_sequence(goal, seq, cp)
+                    bad = run_sequence(goal, seq, cp, fo)
                 except Exception as e:
                     bad = None
                     out.setdefault('errors', []).append('sequence %s on %s crashed the harness: %r' % (seq, goal, e))
                 if bad:
-                    out['cex'].append({'kind': bad[0], 'goal': gi, 'seq': list(seq), 'copy_at': cp, 'why': bad[1], 'sig': '%s|%d|%s' % (bad[0], gi, bad[1][:80])})
+                    out['cex'].append({'kind': bad[0], 'goal': gi, 'fo': fo, 'seq': list(seq), 'copy_at': cp, 'why': bad[1], 'sig': '%s|%s|%d|%s' % (bad[0], fo, gi, bad[1][:80])})
                     if len(out['cex']) >= 10:
                         return
-    out['samples'].append({'goal': goal, 'sequence': [STEPS[i]['method_name'] for i in seq]})
+    out['samples'].append({'goal': goal, 'sequence': [STEPS_[i]['method_name'] for i in seq]})
 
 
 # ------------------------------------------------------------------ units / replay
@@ -526,6 +556,8 @@ def units(tier, seed):
                         us.append(('edit', N, b, M, op, on_copy))
     for gi in range(len(GOALS)):
         us.append(('methods', tier, gi))
+    for gi in range(len(FO_GOALS)):
+        us.append(('methods', tier, gi, 'fo'))
     random.Random(seed).shuffle(us)
     us.sort(key=lambda u: 0 if u[0] == 'methods' else 1)
     return us
@@ -551,5 +583,7 @@ def replay(c):
         return True, 'twin'
     if c['kind'].startswith('edit-'):
         return replay_edit(c)
-    bad = run_sequence(GOALS[c['goal']], c['seq'], c.get('copy_at'))
-    return (bad is not None and bad[0] == c['kind']), 'goal %s, steps %s: %s' % (GOALS[c['goal']], [STEPS[i] for i in c['seq']], bad)
+    fo = c.get('fo', False)
+    G, S_ = (FO_GOALS, FO_STEPS) if fo else (GOALS, STEPS)
+    bad = run_sequence(G[c['goal']], c['seq'], c.get('copy_at'), fo)
+    return (bad is not None and bad[0] == c['kind']), 'goal %s, steps %s (applied to a copy at step %s): %s' % (G[c['goal']], [S_[i] for i in c['seq']], c.get('copy_at'), bad)
